@@ -12,3 +12,5 @@ for p in "$@"; do
 done
 /venv/bin/python setup.py build_ext --inplace >/tmp/fixtest.build.log 2>&1 || { echo BUILD FAILED; tail -20 /tmp/fixtest.build.log; exit 1; }
 /venv/bin/python -m pytest -ra -q -p no:cacheprovider --timeout=900 --continue-on-collection-errors 2>&1 | tail -12
+# the server tests bind a fixed port; if another suite ran at the same time, re-run them alone
+/venv/bin/python -m pytest -q -p no:cacheprovider --timeout=900 rebound/tests/test_server.py 2>&1 | tail -1
